@@ -742,10 +742,13 @@ impl<'a> VariableParserExtension<'a> {
             .type_size_in_bytes(pcx.evcx, inner_type)
             .ok_or_else(|| UnknownSize(r#type.identity(inner_type)))?
             as usize;
+        // The capacity is the modulus of the ring buffer: positions of elements are
+        // `(head + i) % cap`, so the real value must be used here. The amount of data
+        // read from a debugee is bounded by the (guarded) length, not by the capacity.
         let cap = if el_type_size == 0 {
             usize::MAX
         } else {
-            guard_cap(extract_capacity(pcx, &val)? as i64) as usize
+            extract_capacity(pcx, &val)?
         };
         let head = val.assume_field_as_scalar_number("head")? as usize;
 
@@ -761,20 +764,28 @@ impl<'a> VariableParserExtension<'a> {
 
         let data_ptr = val.assume_field_as_pointer("pointer")? as usize;
 
-        let data =
-            debugger::read_memory_by_pid(pcx.evcx.ecx.pid_on_focus(), data_ptr, cap * el_type_size)
-                .map(Bytes::from)?;
+        // read only the occupied parts of the ring buffer
+        let read_range = |range: &std::ops::Range<usize>| {
+            debugger::read_memory_by_pid(
+                pcx.evcx.ecx.pid_on_focus(),
+                data_ptr + range.start * el_type_size,
+                range.len() * el_type_size,
+            )
+            .map(Bytes::from)
+        };
+        let head_data = read_range(&slice_ranges.0)?;
+        let tail_data = read_range(&slice_ranges.1)?;
 
-        let items = slice_ranges
-            .0
-            .chain(slice_ranges.1)
+        let items = [(slice_ranges.0, head_data), (slice_ranges.1, tail_data)]
+            .iter()
+            .flat_map(|(range, data)| range.clone().map(move |real_idx| (real_idx, range.start, data)))
             .enumerate()
-            .filter_map(|(i, real_idx)| {
-                let offset = real_idx * el_type_size;
-                let el_raw_data = &data[offset..(real_idx + 1) * el_type_size];
+            .filter_map(|(i, (real_idx, range_start, data))| {
+                let offset = (real_idx - range_start) * el_type_size;
+                let el_raw_data = &data[offset..offset + el_type_size];
                 let el_data = ObjectBinaryRepr {
                     raw_data: data.slice_ref(el_raw_data),
-                    address: Some(data_ptr + offset),
+                    address: Some(data_ptr + real_idx * el_type_size),
                     size: el_type_size,
                 };
 
@@ -784,6 +795,13 @@ impl<'a> VariableParserExtension<'a> {
                 })
             })
             .collect::<Vec<_>>();
+
+        // the capacity is shown with the same guard as before
+        let cap = if el_type_size == 0 {
+            cap
+        } else {
+            guard_cap(cap as i64) as usize
+        };
 
         Ok(VecValue {
             structure: StructValue {
